@@ -36,6 +36,21 @@ CHECKS = {
     technique='bounded exhaustive enumeration of actions and state sets; least/greatest fixpoints decided by Knaster-Tarski over all subsets of the explicit state space',
     text='step vs. pointwise formula on every state set; attractor/trap vs. intersection of all pre-fixpoints / union of all post-fixpoints over all subsets (literal least/greatest, not a re-run of the iteration); image and descendants vs. explicit successors; 4 modes, fresh and reused automata.',
     note='descendants is checked against the properties stated (within constraint, closed, between constrained and plain reachability), not against one particular iteration'),
+ 'C06': dict(
+    category='exploration', design='4/C06',
+    technique='bounded exhaustive enumeration of formula templates x type-hint shapes, every assignment of the bit ranges compared with an independent evaluator',
+    text='Template families T1-T8 over 14 hint shapes (all ordered pairs for binary arithmetic and comparators); each formula translated by Context.add_expr and compared row by row over the full bit range with an evaluator over unbounded integers; 2 back ends x 2 prefix translators.',
+    note='formulas are printed fully parenthesised (precedence is C16); four documented refusals R1-R4 (arithmetic left of \\in, comparison as operand of Boolean equality, re-binding a LET name, integer operators with arithmetic bodies) are counted, not alarms'),
+ 'C07': dict(
+    category='exploration', design='4/C07',
+    technique='bounded exhaustive enumeration of predicates x every subset of variables, each Context operation compared with the same operation on explicit tables',
+    text='For every predicate of a menu (formulas and unions of explicit points) every subset of the variables is used as quantified set and as care set; let with every value, renamings incl. swaps/chains, apply, assign_from for every point, support, copy; both back ends.',
+    note='tables are read out at bit level, independent of pick_iter'),
+ 'C18': dict(
+    category='exploration', design='4/C18',
+    technique='bounded exhaustive enumeration of all type hints in a window and of predicate x variable-subset combinations for priming/renaming',
+    text='All 190 hints in -9..9 plus a sparse set to +-40: representability, bitfield limits, four type-hint predicates, implies_type_hints; priming/unpriming/replace_with_primed for every subset of variables, rename_variables, support classification vs. semantic dependence, with rigid constants present.',
+    note='representable values are discovered by asking the translator "x = v" for every v of a window'),
 }
 
 NOT_YET = 'check not built yet in this session (design in DESIGN.md section 4); will be claimed once its machinery runs clean on the unchanged tree'
